@@ -37,6 +37,15 @@ def run(P, R, L):
     pair1(P, R, L)
     R.clause("OWN-10", "every open table has its own block-cache partition id and caches blocks under (id, block offset)")
     K.own10_cache_partitions(P, R, L)
+    R.clause("GRD-19", "a level-0 compaction (size- or seek-triggered) always takes every overlapping level-0 file along")
+    K.grd19_level0_inputs_closed(P, R, L)
+    R.clause("GRD-2", "compaction never resurrects an overwritten or deleted value (retention guards, closed-interval overlap tests, oldest snapshot)")
+    K.grd2_retention(P, R, L)
+    K.ord7_smallest_snapshot(P, R, L)
+    K.grd10_closed_intervals(P, R, L)
+    K.bundle_readpath(P, R, L)
+    K.bundle_retention(P, R, L)
+    K.bundle_liveness(P, R, L)
     R.not_decided += ["linearizability itself (real-time order of responses)", "fairness of unlocked_fair",
                       "memory-model arguments for the unsafe blocks (UnsafeCell LogWriter, ArcSwap)"]
     R.assumptions += ["parking_lot::MutexGuard::unlocked_fair releases the mutex for exactly the duration of the closure",
